@@ -105,14 +105,81 @@ def is_nan_row(r):
     return r[0] is None or r[1] is None
 
 
-def run_fit(rows, weighting, cw, prior=False):
+TABLE_FORMS = ["list", "tuple", "int-list", "f4", ">f8", "fortran", "strided", "reversed", "readonly"]
+TABLE_INT_FORMS = ["|i1", "|u1"] + [o + b for b in ("i2", "i4", "i8", "u2", "u4", "u8") for o in "<>"]
+
+
+def table_as(rows, cw, form):
+    """the same points table (and custom weight vector) as another kind of object `from_points` accepts: nested lists /
+    tuples of Python numbers, integer arrays of any width and byte order (tables of levels and raw counts), binary32,
+    big-endian, Fortran-ordered, strided, reversed, read-only arrays.  None when the values do not fit the form exactly
+    (the variant is then skipped): decided here, for any case a shrinker derives."""
+    cells = [v for r in rows for v in r]
+    wvals = [] if cw is None else list(cw)
+    integral = lambda vs: all(v is not None and float(v) == int(float(v)) and abs(float(v)) < 2.0 ** 63 for v in vs)
+    pts64 = np.array([[nan(x), nan(y)] for x, y in rows], dtype=np.float64).reshape(-1, 2)
+    w64 = None if cw is None else np.array([nan(w) for w in cw], dtype=np.float64)
+    if form == "list":
+        if not rows:  # an empty list is not a table of shape (n, 2)
+            return None
+        return [[nan(x), nan(y)] for x, y in rows], None if cw is None else [nan(w) for w in cw]
+    if form == "tuple":
+        if not rows:
+            return None
+        return tuple((nan(x), nan(y)) for x, y in rows), None if cw is None else tuple(nan(w) for w in cw)
+    pyint = lambda v: math.nan if v is None else (int(v) if float(v) == int(float(v)) and abs(float(v)) < 2.0 ** 63 else float(v))
+    if form == "int-list":
+        if not rows or not any(isinstance(pyint(v), int) for v in cells):
+            return None
+        return [[pyint(x), pyint(y)] for x, y in rows], None if cw is None else [pyint(w) for w in cw]
+    if form == "f4":
+        f = pts64.astype(np.float32)
+        if not rows or not np.array_equal(f.astype(np.float64), pts64, equal_nan=True):
+            return None
+        return f, w64
+    if form == ">f8":
+        return pts64.astype(">f8"), None if w64 is None else w64.astype(">f8")
+    if form == "fortran":
+        return np.asfortranarray(pts64), w64
+    if form == "strided":
+        wide = np.full((len(rows), 5), 7.0)
+        wide[:, 1::2] = pts64
+        ww = None
+        if w64 is not None:
+            ww = np.full(2 * len(w64) + 1, 7.0)
+            ww[1::2] = w64
+            ww = ww[1::2]
+        return wide[:, 1::2], ww
+    if form == "reversed":
+        return pts64[::-1].copy()[::-1], None if w64 is None else w64[::-1].copy()[::-1]
+    if form == "readonly":
+        a = pts64.copy()
+        a.flags.writeable = False
+        return a, w64
+    dt = parse_dtype(form)
+    if dt is not None and dt.kind in "iu":
+        info = np.iinfo(dt)
+        if not rows or not integral(cells) or not all(info.min <= int(float(v)) <= info.max for v in cells):
+            return None
+        t = np.array([[int(float(x)), int(float(y))] for x, y in rows], dtype=dt).reshape(-1, 2)
+        if cw is not None and integral(wvals) and all(info.min <= int(float(v)) <= info.max for v in wvals):
+            return t, np.array([int(float(v)) for v in wvals], dtype=dt)
+        return t, w64
+    return None
+
+
+def run_fit(rows, weighting, cw, prior=False, table=None):
     """real pewlib on one variant; observation points: gradient, intercept, rsq, error, weights.
     prior=True: the same fit reached through a history - an object that already holds a (non-identity) line and fit
-    statistics gets these points and weights assigned and is refitted with update_linreg()."""
+    statistics gets these points and weights assigned and is refitted with update_linreg().
+    table: (points object, weights object) from `table_as` instead of the binary64 arrays."""
     from pewlib.calibration import Calibration
 
     pts = np.array([[nan(x), nan(y)] for x, y in rows], dtype=np.float64).reshape(-1, 2)
     wts = weighting if cw is None else (weighting, np.array([nan(w) for w in cw], dtype=np.float64))
+    if table is not None:
+        pts = table[0]
+        wts = weighting if cw is None else (weighting, table[1])
     with warnings.catch_warnings():
         warnings.simplefilter("ignore")
         with np.errstate(all="ignore"):
@@ -742,6 +809,11 @@ class C06(Prop):
             else:
                 y = float(round(c)) + 1.0
             ys.append(abs(y) if y != 0 else (0.0 if rng.random() < 0.3 else 1.0))
+        if not unit and mode != "close" and rng.random() < 0.12:
+            # a table of whole numbers: levels in whole units, responses in raw counts (what an integer table holds)
+            k = rng.choice([1.0, 1.0, 10.0, 100.0]) if scale < 1 else 1.0
+            xs = [float(round(x / scale * k)) if scale < 1 else float(round(x)) for x in xs]
+            ys = [float(min(round(y), 2 ** 62)) for y in ys]
         rows = [[x, y] for x, y in zip(xs, ys)]
         rng.shuffle(rows) if rng.random() < 0.5 else None
         # NaN rows
@@ -776,7 +848,8 @@ class C06(Prop):
         else:
             perms = [list(reversed(range(m)))] + [rng.sample(range(m), m) for _ in range(3 if not big else 5)]
         return {"kind": "fit", "rows": rows, "weighting": weighting, "cw": cw, "perms": perms,
-                "hists": make_histories(rng, rows, weighting, cw)}
+                "hists": make_histories(rng, rows, weighting, cw),
+                "tables": rng.sample(TABLE_FORMS, 2) + [rng.choice(TABLE_INT_FORMS)]}
 
     def gen_cal(self, rng, tier):
         shape = rng.choice([[], [0], [1], [5], [2, 3], [3, 1], [0, 3], [2, 2, 2], [7], [4, 4]])
@@ -1016,6 +1089,14 @@ class C06(Prop):
                 yield {"kind": "calibrate", "mode": "fitted", "shape": [3], "conc": [0.0, 2.5 * sc, 7.0 * sc],
                        "fit": {"rows": rows, "weighting": BUILTIN[k % len(BUILTIN)], "cw": None}}
                 yield {"kind": "fit", "rows": rows, "weighting": BUILTIN[(k + 3) % len(BUILTIN)], "cw": None, "perms": []}
+        # tables of whole numbers (levels in whole units, responses in raw counts) handed over as integer arrays of every
+        # width and byte order, nested lists of Python ints, binary32; custom weights as integers too
+        counts = [[0.0, 12.0], [1.0, 52.0], [2.0, 93.0], [5.0, 212.0], [10.0, 410.0], [10.0, 415.0]]
+        for i, form in enumerate(TABLE_INT_FORMS):
+            w = (BUILTIN + ["Custom"])[i % 8]
+            yield {"kind": "fit", "rows": counts[:6 if form[1:] != "i1" else 3], "weighting": w,
+                   "cw": [1.0, 2.0, 2.0, 4.0, 1.0, 3.0][:6 if form[1:] != "i1" else 3] if w == "Custom" else None,
+                   "perms": [], "tables": [form, "int-list", "f4", TABLE_FORMS[i % len(TABLE_FORMS)]]}
         # data arrays of every image dtype, both byte orders: raw counts on a line of 40 counts per unit over a blank of
         # 12, under the identity, the line given as Python floats / np.float64, and the line fitted from standards
         levels = [0.0, 0.25, 0.5, 1.25, 2.5, 5.0]
@@ -1101,6 +1182,11 @@ class C06(Prop):
         impl, model, spec = [], [], []
         spec_ok = model_ok = True
         variants.append(("refit", rows, cw))
+        table_feats = set()
+        for form in case.get("tables", []):
+            t = table_as(rows, cw, form) if isinstance(form, str) else None
+            if t is not None:
+                variants.append(("table", t, form))
         hist_feats, nhist = set(), 0
         n_finite_required = 0
         for h in case.get("hists", []):
@@ -1115,11 +1201,20 @@ class C06(Prop):
                     continue
                 nhist += 1
                 hist_feats |= history_features(vrows[0], vrows[1], rows, weighting, cw)
+            elif name == "table":
+                got = run_fit(rows, weighting, cw, table=vrows)
+                d = parse_dtype(vcw)
+                d = d if d is not None and d.kind in "iu" else None
+                table_feats.add("table:" + (vcw if d is None else "int-array:" + d.base.str[1:]))
+                if d is not None and d.str[0] == ">":
+                    table_feats.add("table:int-array:big-endian")
+                if d is not None and cw is not None and np.asarray(vrows[1]).dtype.kind in "iu":
+                    table_feats.add("table:int-weights")
             else:
                 got = run_fit(vrows, weighting, vcw, prior=(name == "refit"))
             if name == "clean":
                 rep = base
-            elif name in ("given", "refit", "hist"):  # the current points and weighting are the case's own
+            elif name in ("given", "refit", "hist", "table"):  # the current points and weighting are the case's own
                 if given_rep is None:
                     given_rep = drv_fit(ctx, rows, weighting, cw)
                 rep = given_rep
@@ -1144,7 +1239,7 @@ class C06(Prop):
             if rep["weights_finite_required"]:
                 if not rep["spec_weights_finite"]:
                     raise core.InternalError("driver: specification weights not finite under hasNonzero (contradicts weights_finite_of_nonzero)")
-                spec_ok = spec_ok and weights_finite_where_finite(rows if name == "hist" else vrows, weighting, got["weights"])
+                spec_ok = spec_ok and weights_finite_where_finite(rows if name in ("hist", "table") else vrows, weighting, got["weights"])
                 n_finite_required += 1
             if not fitted:
                 spec.append({"gradient": 1.0, "intercept": 0.0, "rsq": None, "error": None})
@@ -1166,7 +1261,7 @@ class C06(Prop):
             elif m_ok:
                 m_ok = False
             model_ok = model_ok and m_ok
-        feats = self.fit_features(case, clean_rows, fitted, hyp, check_rsq, hist_feats)
+        feats = self.fit_features(case, clean_rows, fitted, hyp, check_rsq, hist_feats | table_feats)
         if dominant:  # always counted in the evidence; only r² is skipped, gradient/intercept are still compared
             feats = set(feats) | {"dominant-weight(1-Σw²/(Σw)²<1e-12: r2 not compared)"}
         if feats and fitted and hyp:
